@@ -108,9 +108,18 @@ class Capture:
         # the TLS context is irrelevant to the middleware checks; avoid generating an RSA key per case
         S._create_self_signed_context = lambda request_client_cert=False: ssl.SSLContext(ssl.PROTOCOL_TLS_SERVER)
 
-    def run(self, toml_tables: str, probe) -> tuple[bool, str]:
+        def cheap_pyopenssl_context():
+            from OpenSSL import SSL
+
+            return SSL.Context(SSL.TLS_SERVER_METHOD)
+
+        S._create_self_signed_pyopenssl_context = cheap_pyopenssl_context
+
+    def run(self, toml_tables: str, probe, server_extra: str = "", files: dict | None = None) -> tuple[bool, str]:
         """toml_tables: the tables under test (e.g. `[access_control] …`); a `[server]` table pointing at a fresh
-        temporary document root is put in front.  The directory is removed after the run."""
+        temporary document root is put in front (`server_extra`: further lines of that table).  `files` maps
+        relative paths to text written under the temporary directory first; `{ROOT}` inside `toml_tables` stands for
+        that directory.  The directory is removed after the run."""
         import shutil
 
         from typer.testing import CliRunner
@@ -119,11 +128,14 @@ class Capture:
 
         d = tempfile.mkdtemp(prefix="nv-mw-")
         try:
-            with open(os.path.join(d, "index.gmi"), "w") as f:
-                f.write("# capsule\n")
+            for rel, text in ({"index.gmi": "# capsule\n"} | (files or {})).items():
+                fp = os.path.join(d, rel)
+                os.makedirs(os.path.dirname(fp), exist_ok=True)
+                with open(fp, "w") as f:
+                    f.write(text)
             path = os.path.join(d, "config.toml")
             with open(path, "w", encoding="utf-8") as f:
-                f.write(f"[server]\ndocument_root = {toml_value(d)}\nhost = \"localhost\"\n\n" + toml_tables)
+                f.write(f"[server]\ndocument_root = {toml_value(d)}\nhost = \"localhost\"\n{server_extra}\n" + toml_tables.replace("{ROOT}", d))
             self.probe, self.created, self.finished = probe, False, False
             r = CliRunner().invoke(M.app, ["serve", "--config", path, "--log-level", "ERROR"])
         finally:
